@@ -9,7 +9,7 @@ META = dict(
     explanation='Atoms / System editing operations are executed on per-atom properties whose VALUES are symbolic (atom types as symbolic integers >= 1, so that per-type masks, the atype >= 1 guard, natypes and the symbols/masses padding become solver decisions); every sequence of operations up to the bound from four pre-state shapes is run against an independent record-per-atom model. Aliasing is executed for real (NumPy object arrays keep view/copy semantics).',
     functions=['atomman/core/Atoms.py:Atoms.__init__,PropertyDict.__setitem__,__setattr__,__getitem__,__setitem__,__deepcopy__,prop,prop_atype,extend,natypes,atypes',
                'atomman/core/System.py:System.__init__,atoms_prop,atoms_extend,_AtomsIndexer,symbols,masses,natypes,pbc'],
-    bounds=dict(quick='3 atoms (+ up to 2 added), properties atype (symbolic ints in [1,3]), pos, a float (N,2) property, an int scalar property; 22 operations; all sequences of length 1 from 4 pre-states and all ordered pairs from the fresh state restricted by a stride (seeded)',
+    bounds=dict(quick='3 atoms (+ up to 2 added), properties atype (symbolic ints in [1,3]), pos, a float (N,2) property, an int scalar property; 30 operations (every int index in [-3,2] for extraction); all sequences of length 1 from 4 pre-states and all ordered pairs from the fresh state restricted by a stride (seeded)',
                 thorough='all ordered pairs from every pre-state, and triples by a stride'),
     outside=['histories longer than 3', 'string-valued properties', 'direct mutation of the arrays exposed by .view / attribute access (documented as views)'],
     lemmas=[], cuts=[], assumptions=['atom types in [1,3]'], trusted=['the 10-line reference semantics per operation in this module'],
@@ -170,6 +170,16 @@ def mk_setitem(idx, name):
         return a, m
     op.__name__ = f'setitem[{name}]'
     return op
+def mk_prop_get_index(idx):
+    def op(a, m, u):
+        b = a.prop(index=idx)               # copying accessor returning an Atoms for that index
+        rows = norm_index(idx, m.n)
+        mb = Model([dict((k, (list(v) if isinstance(v, list) else v)) for k, v in m.rows[k_].items()) for k_ in rows])
+        b.pos[0, 0] = 4242.0                # mutate the copy afterwards: storage must not change (checked through the operand watch)
+        if mb.rows: mb.rows[0]['pos'][0] = 4242.0
+        return b, mb, ('operand', a, m)
+    op.__name__ = f'prop_get_index[{idx}]'
+    return op
 def op_deepcopy(a, m, u):
     b = copy.deepcopy(a)
     return b, m.copy(), ('operand', a, m)
@@ -185,7 +195,7 @@ def op_prop_get_mutate(a, m, u):
 
 OPS = [op_view_full, op_attr_scalar, op_attr_len1, mk_prop_set(0, '0'), mk_prop_set(-1, '-1'), mk_prop_set(-2, '-2'), mk_prop_set(slice(0, 2), '0:2'),
        mk_prop_set([2, 0], '[2,0]'), mk_prop_set('mask', 'mask'), op_prop_set_pos_slice, op_prop_atype_all, mk_prop_atype_one(1), mk_prop_atype_one(3),
-       op_extend_count, op_extend_atoms, mk_getitem(1, '1'), mk_getitem(-1, '-1'), mk_getitem(slice(None, None, 2), '::2'), mk_getitem([2, 2, 0], '[2,2,0]'),
+       op_extend_count, op_extend_atoms, mk_getitem(1, '1'), mk_getitem(-1, '-1'), mk_getitem(-2, '-2'), mk_getitem(-3, '-3'), mk_getitem(0, '0'), mk_setitem(-2, '-2'), mk_setitem(-1, '-1'), mk_prop_get_index(-2), mk_prop_get_index(1), mk_getitem(slice(None, None, 2), '::2'), mk_getitem([2, 2, 0], '[2,2,0]'),
        mk_setitem(1, '1'), mk_setitem(slice(0, 2), '0:2'), op_deepcopy, op_prop_get_mutate]
 def _guard(op):
     """operations are written for at least 3 atoms; on smaller sub-systems they are skipped (not part of the sequence)"""
@@ -196,7 +206,7 @@ def _guard(op):
     return g
 OPS = [_guard(o) for o in OPS]
 for _o in OPS:
-    if not _o.__name__.startswith(('prop_set', 'getitem', 'setitem', 'prop_atype_one')): _o.__name__ = _o.__name__[3:]
+    if not _o.__name__.startswith(('prop_set', 'prop_get_index', 'getitem', 'setitem', 'prop_atype_one')): _o.__name__ = _o.__name__[3:]
 
 
 def compare(a, m, tag):
@@ -260,6 +270,9 @@ def h_system(variant):
             ob.append(('given symbols kept, padding is None', s.symbols[0] == 'Al' and all(x is None for x in s.symbols[1:])))
             s.symbols = ['Al', 'Cu', 'Ni', 'Fe']
             ob.append(('natypes grows with the symbols list', s.natypes == 4))
+            ob.append(('masses read after the symbols list grew: never shorter than natypes', len(s.masses) >= s.natypes))
+            sub = s.atoms_ix[[0, 1]]; sub.symbols = ['Al', 'Cu', 'Ni', 'Fe', 'Co']
+            ob.append(('same on a sub-system from atoms_ix', len(sub.masses) >= sub.natypes and sub.natypes == 5))
             s.masses = [1.0, 2.0]
             ob.append(('masses padded to natypes', len(s.masses) >= s.natypes and s.masses[:2] == (1.0, 2.0)))
             try:
